@@ -246,8 +246,12 @@ def spawn_single(pid, subname, case, variant, suppress, timeout=600):
         os.unlink(path + ".out")
     os.unlink(path)
     if out is None:
-        tail = (r.stderr or "")[-3000:]
-        return "crash", {"msg": "process died rc=%s\n%s" % (r.returncode, tail), "key": _crash_key(r.stderr or "")}
+        err = r.stderr or ""
+        i = err.find("ERROR: AddressSanitizer")
+        if i < 0:
+            i = err.find("runtime error:")
+        tail = err[max(i - 100, 0):][:2500] if i >= 0 else err[-2500:]
+        return "crash", {"msg": "process died rc=%s\n%s" % (r.returncode, tail), "key": _crash_key(err)}
     if out.get("result") is None:
         return "pass", None
     return "fail", out["result"]
